@@ -20,6 +20,37 @@ Proof.
   split; [|reflexivity]. unfold RInv in *. simpl. rewrite <- app_assoc, <- A. exact I.
 Qed.
 
+(* the header ReadFactory examines is the first kMagicSize bytes of the remaining compressed stream, for every split of
+   that stream between left-over bytes (r_in) and bytes still to be read (r_fd), and for every read() chunking *)
+Lemma open_member_header : forall s,
+  firstn kMagicSize (r_in (open_member s)) = firstn kMagicSize (r_in s ++ r_fd s) /\
+  (r_in (open_member s) = [] <-> r_in s ++ r_fd s = []).
+Proof.
+  intros s. unfold open_member. destruct (length (r_in s) <? kMagicSize) eqn:El.
+  - apply Nat.ltb_lt in El.
+    destruct (read_or_eof _ (r_fd s) (r_fdo s)) as [[g d] o] eqn:E. apply read_or_eof_complete in E as (A & B). cbn [r_in r_fd].
+    rewrite A. destruct B as [B|B].
+    + split.
+      * rewrite app_assoc. rewrite (firstn_app_le _ (r_in s ++ g) d) by (rewrite app_length; lia). reflexivity.
+      * split; intros H.
+        -- apply app_eq_nil in H as [H1 H2]. subst g. rewrite H1 in *. simpl in B. unfold kMagicSize in *. simpl in B. lia.
+        -- apply app_eq_nil in H as [H1 H2]. apply app_eq_nil in H2 as [H2 _]. now rewrite H1, H2.
+    + subst d. rewrite app_nil_r. split; [reflexivity|tauto].
+  - apply Nat.ltb_ge in El. split.
+    + now rewrite firstn_app_le by exact El.
+    + split; intros H; [rewrite H in El; unfold kMagicSize in El; simpl in El; lia|apply app_eq_nil in H; tauto].
+Qed.
+
+(* every member after the first begins with the magic of its format (and is at least kMagicSize bytes long) *)
+Definition wf (m : member) : Prop := kMagicSize <= length (m_comp m) /\ magic_ok (firstn kMagicSize (m_comp m)) = true.
+Definition Wf (s : rc) : Prop := Forall wf (tl (r_members s)).
+Definition RInv2 (s : rc) : Prop := RInv s /\ Wf s.
+
+Lemma open_member_spec2 : forall s, RInv2 s -> RInv2 (open_member s) /\ r_members (open_member s) = r_members s.
+Proof.
+  intros s [I W]. destruct (open_member_spec s I) as (I' & M). split; [|exact M]. split; [exact I'|]. unfold Wf. now rewrite M.
+Qed.
+
 Lemma process_spec : forall avail room m deco cin cout deco', process avail room m deco = (cin, cout, deco') ->
   cin <= avail /\ cin <= length (m_comp m) /\ cout <= room /\ cout <= length (m_plain m) /\
   (cin = 0 -> cout = 0 -> (avail = 0 \/ m_comp m = []) /\ (room = 0 \/ m_plain m = [])).
@@ -51,16 +82,16 @@ Lemma skipn_both : forall (a b c d : list N) n, a ++ b = c ++ d -> n <= length a
   skipn n a ++ b = skipn n c ++ d.
 Proof. intros a b c d n H Ha Hc. rewrite <- (skipn_app_le _ a b n Ha), <- (skipn_app_le _ c d n Hc). now rewrite H. Qed.
 
-Lemma rc_step_spec : forall amount s, 0 < amount -> RInv s ->
+Lemma rc_step_spec : forall amount s, 0 < amount -> RInv2 s ->
   match rc_step amount s with
-  | SDone out s' => RInv s' /\ rc_plain s = out ++ rc_plain s' /\ length out <= amount /\ (out = [] -> rc_plain s = [])
-  | SCont s' => RInv s' /\ rc_plain s' = rc_plain s /\ rmeasure s' < rmeasure s
+  | SDone out s' => RInv2 s' /\ rc_plain s = out ++ rc_plain s' /\ length out <= amount /\ (out = [] -> rc_plain s = [])
+  | SCont s' => RInv2 s' /\ rc_plain s' = rc_plain s /\ rmeasure s' < rmeasure s
   | SErr => False
   end.
 Proof.
-  intros amount s Ha I. unfold rc_step.
+  intros amount s Ha [I W]. unfold rc_step. unfold Wf in W.
   destruct (r_members s) as [|m ms] eqn:Em.
-  - unfold rc_plain. rewrite Em. simpl. repeat split; [exact I|lia].
+  - unfold rc_plain. rewrite Em. simpl. split; [split; [exact I|unfold Wf; rewrite Em; exact W]|]. repeat split; lia.
   - (* ReadInput *)
     set (s1 := if is_nil (r_in s)
                then let '(g, d, o) := read_or_eof kInputBuffer (r_fd s) (r_fdo s) in mk_rc (m :: ms) g d o (r_deco s)
@@ -98,14 +129,24 @@ Proof.
       set (s2 := mk_rc ms (skipn cin (r_in s1)) (r_fd s1) (r_fdo s1) deco').
       assert (I2 : RInv s2) by (unfold RInv, s2; simpl; now rewrite Hin, F1).
       destruct (open_member_spec s2 I2) as (I3 & M3).
+      assert (W3 : Wf (open_member s2)).
+      { unfold Wf. rewrite M3. unfold s2. simpl. simpl in W. destruct ms; [constructor|]. now inversion W. }
+      assert (Hmag : negb (is_nil (r_in (open_member s2))) && negb (magic_ok (firstn kMagicSize (r_in (open_member s2)))) = false).
+      { destruct (open_member_header s2) as (H1 & H2). unfold RInv in I2. simpl in W.
+        destruct ms as [|m2 ms'].
+        - assert (E0 : r_in (open_member s2) = []) by (apply H2; rewrite I2; reflexivity). rewrite E0. reflexivity.
+        - inversion W as [|? ? [Wl Wm] _]; subst. rewrite H1, I2. unfold s2. cbn [r_members]. unfold comps. cbn [map concat].
+          rewrite firstn_app_le by exact Wl. rewrite Wm. cbn [negb]. apply andb_false_r. }
+      rewrite Hmag.
       assert (Pl : rc_plain s = out ++ rc_plain (open_member s2)).
       { unfold rc_plain. rewrite Em, M3. simpl. rewrite Hplain, F2, app_nil_r. reflexivity. }
       destruct out as [|x xs] eqn:Eo.
-      * split; [exact I3|]. split; [now rewrite Pl|]. unfold rmeasure at 1. rewrite M3. simpl. rewrite Hmeas. lia.
-      * split; [exact I3|]. split; [exact Pl|]. split; [exact Hout|]. intros E. discriminate.
+      * split; [split; [exact I3|exact W3]|]. split; [now rewrite Pl|]. unfold rmeasure at 1. rewrite M3. simpl. rewrite Hmeas. lia.
+      * split; [split; [exact I3|exact W3]|]. split; [exact Pl|]. split; [exact Hout|]. intros E. discriminate.
     + (* more to come from this member *)
       set (s2 := mk_rc (m' :: ms) (skipn cin (r_in s1)) (r_fd s1) (r_fdo s1) deco').
       assert (I2 : RInv s2) by (unfold RInv, s2; simpl; unfold comps; simpl; exact Hin).
+      assert (W2 : Wf s2) by (unfold Wf, s2; simpl; exact W).
       assert (Pl : rc_plain s = out ++ rc_plain s2).
       { unfold rc_plain. rewrite Em. unfold s2. cbn [r_members map concat]. rewrite Hplain. symmetry. apply app_assoc. }
       destruct out as [|x xs] eqn:Eo.
@@ -119,22 +160,22 @@ Proof.
             destruct Hc0 as [Hc0|Hc0]; [contradiction|]. rewrite Hc0 in P4. simpl in P4. lia.
           - apply negb_false_iff in E1. apply andb_true_iff in E1 as [E1 E2]. apply is_nil_true in E1, E2.
             unfold m' in Efin. simpl in Efin. rewrite E1, E2 in Efin. rewrite !skipn_nil in Efin. discriminate. }
-        split; [exact I2|]. split; [now rewrite Pl|].
+        split; [split; [exact I2|exact W2]|]. split; [now rewrite Pl|].
         unfold rmeasure at 1. unfold s2. simpl. rewrite Hmeas. unfold comps. simpl. rewrite app_length, skipn_length.
         fold (comps ms). lia.
-      * split; [exact I2|]. split; [exact Pl|]. split; [exact Hout|]. intros E. discriminate.
+      * split; [split; [exact I2|exact W2]|]. split; [exact Pl|]. split; [exact Hout|]. intros E. discriminate.
 Qed.
 
-Lemma rc_read_loop_spec : forall fuel amount s, 0 < amount -> RInv s -> rmeasure s < fuel ->
-  exists out s', rc_read_loop fuel amount s = ROk out s' /\ RInv s' /\ rc_plain s = out ++ rc_plain s' /\
+Lemma rc_read_loop_spec : forall fuel amount s, 0 < amount -> RInv2 s -> rmeasure s < fuel ->
+  exists out s', rc_read_loop fuel amount s = ROk out s' /\ RInv2 s' /\ rc_plain s = out ++ rc_plain s' /\
                  length out <= amount /\ (out = [] -> rc_plain s = []).
 Proof.
   induction fuel as [|f IH]; intros amount s Ha I Hm; [lia|]. simpl.
   pose proof (rc_step_spec amount s Ha I) as H.
   destruct (rc_step amount s) as [out s'|s'|]; [| |contradiction].
-  - destruct H as (I' & P & L & Z). exists out, s'. repeat split; assumption.
+  - destruct H as (I' & P & L & Z). exists out, s'. split; [reflexivity|]. split; [exact I'|]. split; [exact P|]. split; assumption.
   - destruct H as (I' & P & M). destruct (IH amount s' Ha I' ltac:(lia)) as (o2 & s4 & R & I4 & P4 & L4 & Z4).
-    exists o2, s4. rewrite <- P. repeat split; assumption.
+    exists o2, s4. rewrite <- P. split; [exact R|]. split; [exact I4|]. split; [exact P4|]. split; assumption.
 Qed.
 
 (* what a sequence of Read calls must look like for a given plaintext: in order, nothing lost or repeated, never more
@@ -147,19 +188,19 @@ Fixpoint good_reads (plain : list N) (reqs : list nat) (chunks : list (list N)) 
   | _, _ => False
   end.
 
-Lemma rc_read_spec : forall amount s, RInv s ->
-  exists out s', rc_read amount s = ROk out s' /\ RInv s' /\ rc_plain s = out ++ rc_plain s' /\
+Lemma rc_read_spec : forall amount s, RInv2 s ->
+  exists out s', rc_read amount s = ROk out s' /\ RInv2 s' /\ rc_plain s = out ++ rc_plain s' /\
                  length out <= amount /\ (out = [] -> amount = 0 \/ rc_plain s = []).
 Proof.
   intros amount s I. unfold rc_read. destruct (amount =? 0) eqn:E.
-  - apply Nat.eqb_eq in E. exists [], s. repeat split; [exact I|simpl; lia|]. intros _. now left.
+  - apply Nat.eqb_eq in E. exists [], s. split; [reflexivity|]. split; [exact I|]. split; [reflexivity|]. split; [simpl; lia|]. intros _. now left.
   - apply Nat.eqb_neq in E.
     destruct (rc_read_loop_spec (rc_fuel s) amount s ltac:(lia) I ltac:(unfold rc_fuel, rmeasure, comps; lia))
       as (out & s' & R & I' & P & L & Z).
-    exists out, s'. repeat split; try assumption. intros Eo. right. now apply Z.
+    exists out, s'. split; [exact R|]. split; [exact I'|]. split; [exact P|]. split; [exact L|]. intros Eo. right. now apply Z.
 Qed.
 
-Lemma rc_read_all_spec : forall reqs s, RInv s ->
+Lemma rc_read_all_spec : forall reqs s, RInv2 s ->
   exists chunks, rc_read_all reqs s = Some chunks /\ good_reads (rc_plain s) reqs chunks.
 Proof.
   induction reqs as [|a rt IH]; intros s I; simpl.
@@ -169,17 +210,21 @@ Proof.
     simpl. split; [exact L|]. split; [exact Z|]. exists (rc_plain s'). split; [exact P|exact G].
 Qed.
 
-Theorem members_concat : forall members fdo deco reqs,
+Theorem members_concat : forall members fdo deco reqs, Forall wf (tl members) ->
   exists chunks, rc_read_all reqs (rc_open members fdo deco) = Some chunks /\
                  good_reads (concat (map m_plain members)) reqs chunks.
 Proof.
-  intros members fdo deco reqs. unfold rc_open.
+  intros members fdo deco reqs Hw. unfold rc_open.
   set (s0 := mk_rc members [] (concat (map m_comp members)) fdo deco).
-  assert (I0 : RInv s0) by (unfold RInv, s0, comps; reflexivity).
-  destruct (open_member_spec s0 I0) as (I1 & M1).
+  assert (I0 : RInv2 s0) by (split; [unfold RInv, s0, comps; reflexivity|exact Hw]).
+  destruct (open_member_spec2 s0 I0) as (I1 & M1).
   destruct (rc_read_all_spec reqs (open_member s0) I1) as (chunks & R & G).
   exists chunks. split; [exact R|]. unfold rc_plain in G. rewrite M1 in G. exact G.
 Qed.
+
+(* the hypothesis is satisfiable: two minimal gzip-like members *)
+Example wf_satisfiable : Forall wf (tl [mk_member [31; 139; 8; 0; 0; 0; 0]%N []; mk_member [66; 90; 104; 57; 23; 114; 69]%N [1]%N]).
+Proof. repeat constructor. Qed.
 
 (* consequences of good_reads, for readers of the statement *)
 Lemma good_reads_prefix : forall reqs plain chunks, good_reads plain reqs chunks ->
